@@ -110,6 +110,12 @@ def run(ctx, rep):
                        f'day difference is {show(a)[:40]} - {show(b)[:40]} (must be end - start)')
             else:
                 rep.ob('R14.1', 'difference-orientation', None, f'difference not recognised: {show(sub)[:80]}')
+        # a reversed range has no days: the count must be clamped (max / clamp / a test), not folded back by an absolute value
+        absapps = find(ret, lambda x: x[0] == 'app' and (x[1].endswith('::abs') or x[1].endswith('unsigned_abs')) and
+                       any(y in nds for y in subterms(x)))
+        rep.ob('R14.1', 'clamped-not-folded', not absapps, 'a negative day difference is clamped to 0' if not absapps else
+               f'the count takes the absolute value of the day difference ({show(absapps[0], maxd=4)[:80]}): a range whose end precedes '
+               'its start by g days counts g-1 days instead of none', where=lib.bodies[nd].span)
         # inclusive count: + 1
         plus1 = find(ret, lambda x: x[0] == 'bin' and x[1] == 'Add' and x[2] in nds and const_f64(x[3]) == 1.0)
         rep.ob('R14.1', 'inclusive-offset', bool(plus1), 'count is the day difference + 1' if plus1 else
